@@ -87,6 +87,7 @@ def m_op(bs):
 class C04(MsgProp):
     id = "C04"
     name = "fixed-position fields"
+    cfgs_quick = ["std", "noalloc"]   # the no-alloc build has its own copies of nom's many_m_n and count
     rule = ("M ops (messages::parse on unarmored bytes): for each of the 24 layouts/branches at full length - "
             "all-zero, all-one, one-hot and one-cold at every bit, per-field boundary values, random joint "
             "assignments; type 7/13/20 with 1-4 elements, type 15 in its 88/110/160-bit forms, type 16 with 1-2 "
@@ -233,9 +234,17 @@ class C10(MsgProp):
                 continue
             rep.nontrivial.add(op)
             for k, v in pa["kv"].items():
-                if base(k) in F32 and v != "none" and pm["kv"].get(k, "none") != "none" and pm["kv"][k] != v:
-                    rep.violation(f"C10: {k} reported {v}, the model's exact (raw, scale) pair gives {pm['kv'][k]}",
+                if base(k) not in F32:
+                    continue
+                mv = pm["kv"].get(k, "none")
+                if v != "none" and mv != "none" and mv != v:
+                    rep.violation(f"C10: {k} reported {v}, the model's exact (raw, scale) pair gives {mv}",
                                   {"cfg": cfg, "ops": [op], "impl": a, "model": m})
+                elif v == "none" and mv != "none":
+                    # a raw value that is not the field's 'not available' code must be reported as raw/scale;
+                    # (the converse - a value where absence is specified - is C11's subject, not C10's)
+                    rep.violation(f"C10: {k} is reported absent although the raw value is not the 'not available' code "
+                                  f"(specified value {mv})", {"cfg": cfg, "ops": [op], "impl": a, "model": m})
             self.extra_judge(rep, cfg, op, a, m)
             if rep.evaluations % 997 == 0:
                 rep.sample({"op": op, "impl": a[:300]})
